@@ -504,14 +504,17 @@ impl FixtureDatabase {
         let mut available_fixtures = Vec::new();
         let mut seen_names = HashSet::new();
 
-        // Priority 1: Fixtures in the same file
+        // Priority 1: Fixtures in the same file (last definition wins, as in resolution)
         for entry in self.definitions.iter() {
             let fixture_name = entry.key();
-            for def in entry.value().iter() {
-                if def.file_path == file_path && !seen_names.contains(fixture_name.as_str()) {
-                    available_fixtures.push(def.clone());
-                    seen_names.insert(fixture_name.clone());
-                }
+            if let Some(def) = entry
+                .value()
+                .iter()
+                .filter(|def| def.file_path == file_path)
+                .max_by_key(|def| def.line)
+            {
+                available_fixtures.push(def.clone());
+                seen_names.insert(fixture_name.clone());
             }
         }
 
@@ -520,16 +523,20 @@ impl FixtureDatabase {
             loop {
                 let conftest_path = current_dir.join("conftest.py");
 
-                // First add fixtures defined directly in the conftest
+                // First add fixtures defined directly in the conftest (last definition wins)
                 for entry in self.definitions.iter() {
                     let fixture_name = entry.key();
-                    for def in entry.value().iter() {
-                        if def.file_path == conftest_path
-                            && !seen_names.contains(fixture_name.as_str())
-                        {
-                            available_fixtures.push(def.clone());
-                            seen_names.insert(fixture_name.clone());
-                        }
+                    if seen_names.contains(fixture_name.as_str()) {
+                        continue;
+                    }
+                    if let Some(def) = entry
+                        .value()
+                        .iter()
+                        .filter(|def| def.file_path == conftest_path)
+                        .max_by_key(|def| def.line)
+                    {
+                        available_fixtures.push(def.clone());
+                        seen_names.insert(fixture_name.clone());
                     }
                 }
 
